@@ -277,6 +277,7 @@ func c15r4(c *an.Ctx) {
 	pa := poolA(c)
 	a := A(c)
 	closedFn := a.obj("drpcpool", "closed")
+	keyF := a.field("drpcpool", "entry", "key")
 	// shared typestate over Take / Put / Close: per current entry
 	timerStop := "(*time.Timer).Stop"
 	ownerFlow := func(fn *ssa.Function) *an.FlowResult {
@@ -289,6 +290,14 @@ func c15r4(c *an.Ctx) {
 					}
 				case ssa.CallInstruction:
 					cc := x.Common()
+					if _, isDefer := in.(*ssa.Defer); !isDefer {
+						if obj := an.CalleeObj(cc); obj != nil && obj.FullName() == "(*sync.Mutex).Unlock" && recvField(cc) == pa.mu.Origin() {
+							// the pool is unlocked in mid-operation: what other callers can see now counts
+							if hasTag(st, "stopped") && !hasTag(st, "unlinked") {
+								return []string{addTag(st, "exposed")}
+							}
+						}
+					}
 					if kind, _, _, ok := pa.listOp(cc); ok && kind == "rm" {
 						return []string{addTag(st, "unlinked")}
 					}
@@ -307,6 +316,16 @@ func c15r4(c *an.Ctx) {
 		learn := func(st string, condV ssa.Value, val bool) (string, bool) {
 			cond, neg := an.StripNot(condV)
 			truth := val != neg
+			// p.entries[ent.key] for an entry that is still linked (it was just found on a list and has not been
+			// unlinked on this path) is the list it is on, so it is not nil: that is the link invariant C15.R3/R5
+			// maintain (an entry is on the per-key list registered under its own key, or on none)
+			if x, trueNonNil, ok := nilTestOf(cond); ok {
+				if lk, isLk := x.(*ssa.Lookup); isLk && !lk.CommaOk && isLoadOfField(lk.X, pa.entries) && isLoadOfField(lk.Index, keyF) {
+					if truth != trueNonNil && !hasTag(st, "unlinked") {
+						return st, false
+					}
+				}
+			}
 			if x, trueNonNil, ok := nilTestOf(cond); ok && isLoadOfField(x, pa.exp) {
 				if truth != trueNonNil {
 					return addTag(st, "owner"), true // no timer
@@ -385,7 +404,7 @@ func c15r4(c *an.Ctx) {
 				return
 			}
 			for _, st := range r.Before(in) {
-				if hasTag(st, "stopped") && !hasTag(st, "unlinked") {
+				if (hasTag(st, "stopped") && !hasTag(st, "unlinked")) || hasTag(st, "exposed") {
 					bad, where = true, in
 				}
 			}
